@@ -5,6 +5,7 @@ import Gowarc.Driver.ParseH
 import Gowarc.Driver.RecordH
 import Gowarc.Driver.BlockH
 import Gowarc.Driver.RevisitH
+import Gowarc.Driver.WriterH
 namespace Gowarc.Driver
 
 def handleLine (line : String) : String :=
@@ -29,6 +30,7 @@ def handleLine (line : String) : String :=
       | "block" => handleBlock args
       | "revisit" => handleRevisit args
       | "xpolb" => handleXpolBuild args
+      | "writer" => handleWriter args
       | _ => "unknown-kind"
     id ++ " " ++ out
   | _ => "? bad-line"
